@@ -5,8 +5,12 @@ package zzverifc10
 import (
 	"fmt"
 	"os"
+	"path/filepath"
 	"strings"
 	"testing"
+
+	"github.com/AdguardTeam/AdGuardDNS/internal/agd"
+	"github.com/AdguardTeam/AdGuardDNS/internal/profiledb"
 
 	"github.com/AdguardTeam/AdGuardDNS/internal/dnsserver/zzverif/vrt"
 	"github.com/miekg/dns"
@@ -114,8 +118,8 @@ var (
 		"sub.gblocked.test.",
 		"ok.pblocked.test.",
 		"notgblocked.test.", // "||gblocked.test^" anchors at a label boundary
-		"x.plain.test.", // contains the text of the unanchored rule: ambiguous
-		"ads.test.",     // blocked by the ordinary filter, i.e. processed normally
+		"x.plain.test.",     // contains the text of the unanchored rule: ambiguous
+		"ads.test.",         // blocked by the ordinary filter, i.e. processed normally
 	}
 
 	c10QTypesQuick = []uint16{dns.TypeA, dns.TypeAAAA}
@@ -125,6 +129,9 @@ var (
 	// whose GeoIP ASN is on the profile's blocked / allowed list.  The
 	// statement speaks about the CLIENT's ASN only.
 	c10ECS = []string{"100.70.0.0/24", "100.71.0.0/24"}
+
+	// Malformed ECS options of the third part.
+	c10BadECS = []string{c10ECSBadFamily, c10ECSBadLen, c10ECSBadBits}
 	c10Protos = []string{"dns", "dot"}
 )
 
@@ -187,7 +194,7 @@ func c10Reference(hasProf bool, q c10Query) (o *c10Obs) {
 		conf.Prof = "empty"
 	}
 	o = c10NewStack(conf).serve(q, c10ReqID)
-	if len(o.Writes) != 1 || o.Err != "" {
+	if len(o.Writes) != 1 || (o.Err != "" && !q.malformedECS()) {
 		vrt.Fatalf("reference stack does not process %+v normally: %s", q, o)
 	}
 	c10RefCache[key] = o
@@ -202,10 +209,15 @@ var c10Noted = map[string]bool{}
 
 // c10Run runs one case on fresh real objects.
 func c10Run(r *vrt.Run, c c10Case) (fs []vrt.Finding) {
+	return c10RunOn(r, c, c10NewStack(c.Conf))
+}
+
+// c10RunOn checks request c.Q on the given fresh stack, which must implement
+// configuration c.Conf.
+func c10RunOn(r *vrt.Run, c c10Case, s *c10Stack) (fs []vrt.Finding) {
 	want, reason := c10Decide(c.Conf, c.Q)
 	hasProf := c.Conf.Prof != "none"
 
-	s := c10NewStack(c.Conf)
 	o := s.serve(c.Q, c10ReqID)
 	r.Trans(1)
 
@@ -215,7 +227,9 @@ func c10Run(r *vrt.Run, c c10Case) (fs []vrt.Finding) {
 		outcome = "answered"
 	}
 	ecs := ""
-	if c.Q.ECS != "" {
+	if c.Q.malformedECS() {
+		ecs = "+malformed-ecs"
+	} else if c.Q.ECS != "" {
 		ecs = "+ecs"
 	}
 	r.Class(fmt.Sprintf("%s/%s/%s%s/prof-%s -> %s", want, reason, c.Q.Proto, ecs, c.Conf.Prof, outcome))
@@ -230,11 +244,17 @@ func c10Run(r *vrt.Run, c c10Case) (fs []vrt.Finding) {
 
 	switch want {
 	case c10Blocked:
-		if !dropped {
+		if c.Q.malformedECS() && (!dropped || o.Err != "") {
+			// One key of its own: the answer comes from the handling of the
+			// ECS option, which runs before the access check.
+			fs = append(fs, vrt.F("access/blocked-request-with-malformed-ecs-answered",
+				"%s must be dropped (%s) without any response, but its malformed ECS option is answered: response writer got %q, handler error %q",
+				c10Desc(c), reason, o.Writes, o.Err)...)
+		} else if !dropped {
 			fs = append(fs, vrt.F("access/blocked-request-answered",
 				"%s must be dropped (%s) but the response writer got %q", c10Desc(c), reason, o.Writes)...)
 		}
-		if o.Err != "" {
+		if o.Err != "" && !c.Q.malformedECS() {
 			fs = append(fs, vrt.F("access/blocked-request-returns-error",
 				"%s must be dropped (%s) but the handler returned the error %q, which the server answers with SERVFAIL",
 				c10Desc(c), reason, o.Err)...)
@@ -376,6 +396,159 @@ func TestVerifC10(t *testing.T) {
 		func(c c10Case) []vrt.Finding { return c10Run(r, c) },
 	)
 
+	// Part 3: malformed EDNS Client Subnet options.  The statement makes no
+	// exception for them: a blocked request receives no response at all, also
+	// when its ECS option is malformed; a request that no rule rejects is
+	// processed as without access settings (FORMERR).
+	badNames := []string{"clean.test.", "gblocked.test.", "pblocked.test."}
+	r.Bound("malformed_ecs_options_part3", len(c10BadECS))
+	vrt.Part(r, "badecs",
+		func(emit func(c10Case)) {
+			for _, conf := range confs {
+				for _, proto := range c10Protos {
+					for _, ecs := range c10BadECS {
+						for _, name := range badNames {
+							for _, cl := range clients {
+								for _, asn := range asns {
+									emit(c10Case{Conf: conf, Q: c10Query{
+										Client: cl, ASN: asn, Name: name, QType: dns.TypeA, Proto: proto, ECS: ecs,
+									}})
+								}
+							}
+						}
+					}
+				}
+			}
+		},
+		func(c c10Case) []vrt.Finding { return c10Run(r, c) },
+	)
+
+	// Part 4: the profile survives a restart.  The profile object is used by
+	// requests, written to the profile database's real file cache, loaded
+	// back, and must then give every request the same fate.
+	dir, err := os.MkdirTemp("/dev/shm", "verif-c10-")
+	if err != nil {
+		dir = t.TempDir()
+	}
+	var fcConfs []c10Config
+	for _, conf := range confs {
+		if conf.Prof != "none" && conf.GNets == nil && conf.GRules == nil {
+			fcConfs = append(fcConfs, conf)
+		}
+	}
+	fcReqs := c10FileCacheRequests(thorough)
+	r.Bound("filecache_configurations", len(fcConfs))
+	r.Bound("filecache_uses", len(c10FileCacheUses))
+	r.Bound("filecache_requests_per_case", len(fcReqs))
+	vrt.Part(r, "filecache",
+		func(emit func(c10FCCase)) {
+			for _, conf := range fcConfs {
+				for _, use := range c10FileCacheUses {
+					emit(c10FCCase{Conf: conf, Use: use})
+				}
+			}
+		},
+		func(c c10FCCase) []vrt.Finding { return c10RunFileCache(r, c, dir, fcReqs) },
+	)
+	_ = os.RemoveAll(dir)
+
 	r.Finish()
 	os.Exit(0)
+}
+
+// ---- Part filecache -----------------------------------------------------------
+
+// c10FCCase is one (configuration, prior use of the profile object) pair.
+type c10FCCase struct {
+	Conf c10Config `json:"conf"`
+
+	// Use tells how the profile's access object was used before it was
+	// written to the file cache.
+	Use string `json:"use"`
+}
+
+// c10FileCacheUses are the prior uses; each is one request through the chain.
+var c10FileCacheUses = []string{"unused", "blocked-name", "clean-name", "subnet-blocked-client", "clean-name-dot"}
+
+func c10FileCacheUse(use string) (q c10Query, ok bool) {
+	switch use {
+	case "unused":
+		return c10Query{}, false
+	case "blocked-name":
+		return c10Query{Client: "10.0.0.1", Name: "pblocked.test.", QType: dns.TypeA, Proto: "dns"}, true
+	case "clean-name":
+		return c10Query{Client: "10.0.0.1", Name: "clean.test.", QType: dns.TypeA, Proto: "dns"}, true
+	case "subnet-blocked-client":
+		return c10Query{Client: "203.0.113.5", Name: "clean.test.", QType: dns.TypeA, Proto: "dns"}, true
+	case "clean-name-dot":
+		return c10Query{Client: "10.0.0.1", ASN: 64501, Name: "clean.test.", QType: dns.TypeAAAA, Proto: "dot"}, true
+	default:
+		vrt.Fatalf("bad use %q", use)
+
+		return c10Query{}, false
+	}
+}
+
+// c10FileCacheRequests is the request alphabet run against the loaded
+// profile.
+func c10FileCacheRequests(thorough bool) (qs []c10Query) {
+	names := []string{"clean.test.", "pblocked.test.", "Sub.PBlocked.TEST.", "ok.pblocked.test.", "p6.test.", "pflat.test."}
+	clients := []string{"10.0.0.1", "203.0.113.5", "203.0.113.130"}
+	if thorough {
+		names = append(names, "gblocked.test.", "ok.gblocked.test.", "ads.test.")
+		clients = append(clients, "198.51.100.7", "2001:db8:b::1", "2001:db8:b:a::1", "::ffff:203.0.113.5")
+	}
+	for _, proto := range c10Protos {
+		for _, name := range names {
+			for _, qt := range c10QTypesQuick {
+				for _, cl := range clients {
+					for _, asn := range c10ASNsQuick {
+						qs = append(qs, c10Query{Client: cl, ASN: asn, Name: name, QType: qt, Proto: proto})
+					}
+				}
+			}
+		}
+	}
+
+	return qs
+}
+
+// c10RunFileCache runs one case of part filecache.
+func c10RunFileCache(r *vrt.Run, c c10FCCase, dir string, reqs []c10Query) (fs []vrt.Finding) {
+	// The profile as the backend loader builds it, served by a chain.
+	s1 := c10NewStack(c.Conf)
+	if q, ok := c10FileCacheUse(c.Use); ok {
+		s1.serve(q, c10ReqID)
+		r.Trans(1)
+	}
+
+	// Real file cache of the profile database: Store, then Load.
+	path := filepath.Join(dir, fmt.Sprintf("profiles-%d.pb", os.Getpid()))
+	profs, devs, err := profiledb.VerifC10CacheRoundTrip(path, []*agd.Profile{s1.prof}, []*agd.Device{s1.dev})
+	if err != nil {
+		vrt.Fatalf("file cache round trip: %v", err)
+	}
+	if len(profs) != 1 || len(devs) != 1 || profs[0].ID != c10ProfID || devs[0].ID != c10DevID {
+		return vrt.F("filecache/profile-lost-after-restart", "configuration %+v, profile %s: the file cache returned %d profile(s) and %d device(s)", c.Conf, c.Use, len(profs), len(devs))
+	}
+	r.Trans(2)
+
+	seen := map[string]bool{}
+	for i, q := range reqs {
+		if i > 0 {
+			// The first request is the execution counted by vrt.Part.
+			r.Eval()
+		}
+		for _, f := range c10RunOn(r, c10Case{Conf: c.Conf, Q: q}, c10NewStackWith(c.Conf, profs[0], devs[0])) {
+			f.Key = "filecache/" + strings.TrimPrefix(f.Key, "access/") + "-after-restart"
+			if seen[f.Key] {
+				continue
+			}
+			seen[f.Key] = true
+			f.Detail = fmt.Sprintf("profile object used for [%s] before it was written to the profile file cache and loaded back (restart); then: %s", c.Use, f.Detail)
+			fs = append(fs, f)
+		}
+	}
+
+	return fs
 }
